@@ -172,7 +172,9 @@ def run(ctx):
             if safe:
                 mother = rng.choice([n for n in names if gen.safe_label(n) and charge_conjugate_name(n) not in (n, wrapped(n)) and gen.safe_label(charge_conjugate_name(n))])
                 cm = charge_conjugate_name(mother)
-                text = f"Decay {mother}\n0.5 {' '.join(safe)} PHSP;\nEnddecay\nCDecay {cm}\n"
+                # the decay line with or without the PHOTOS keyword and with model parameters: the conjugate table keeps them all
+                ph_, mdl_ = rng.choice([("", "PHSP"), ("PHOTOS ", "PHSP"), ("PHOTOS ", "VSS"), ("", "HELAMP 1.0 0.0 1.0 3.14"), ("PHOTOS ", "SVS")])
+                text = f"Decay {mother}\n0.5 {' '.join(safe)} {ph_}{mdl_};\nEnddecay\nCDecay {cm}\n"
                 if rng.random() < 0.5:
                     # further CDecay statements without a source table, sorting before and after the real one: they add nothing
                     text += "CDecay (nosrc)\nCDecay zzz_nosrc\n"
@@ -207,6 +209,13 @@ def run(ctx):
                     p = DecFileParser.from_string(text)
                     p.parse()
                     got = sorted(p.list_decay_modes(cm)[0])
+                    src_d = p._decay_mode_details(p._find_decay_modes(mother)[0], display_photos_keyword=True)
+                    cc_d = p._decay_mode_details(p._find_decay_modes(cm)[0], display_photos_keyword=True)
+                    res.count("cdecay_agreement_metadata")
+                    if (src_d["bf"], src_d["model"], src_d["model_params"]) != (cc_d["bf"], cc_d["model"], cc_d["model_params"]):
+                        res.violation("the CDecay table does not keep the metadata of the decay it conjugates (branching fraction, PHOTOS flag, model, parameters)",
+                                      {"kind": "cdecay-agree", "text": text}, impl=[cc_d["bf"], cc_d["model"], cc_d["model_params"]],
+                                      model=[src_d["bf"], src_d["model"], src_d["model_params"]], clause="agreement with CDecay")
                     if with_copy:
                         got2 = sorted(p.list_decay_modes(cpbar)[0])
                         res.count("cdecay_agreement_with_copy")
